@@ -458,6 +458,34 @@ func scanC18(a *App, m *Mon, sc *StepCtx, rng *rand.Rand, names []string, provs 
 			m.fail(sc, "C18", "scan-exact", rule, "%s of %s returns %d records, its subject has %d (extra or missing records of other subjects)", rule, subject, len(got), len(want))
 		}
 	}
+	if !viaGenesis {
+		// listings as the query server performs them, for a subject with more records than any
+		// default page size: 130 further providers bound to the first name, 120 requests pending
+		// for one of them
+		big := names[0]
+		var want []string
+		for _, p := range provs {
+			want = append(want, big+"/"+hexs(p))
+		}
+		for i := 0; i < 130; i++ {
+			p := sdk.AccAddress(sha256Sum(fmt.Sprint("c18-many-", i))[:20])
+			b := types.NewServiceBinding(big, p, coins(10), `{"price":"1stake"}`, 1, "{}", true, genesisTime, owners[0])
+			k.SetServiceBinding(ctx, b)
+			want = append(want, big+"/"+hexs(p))
+		}
+		if res, err := k.Bindings(sdk.WrapSDKContext(ctx), &types.QueryBindingsRequest{ServiceName: big}); err == nil {
+			var got []string
+			for _, b := range res.ServiceBindings {
+				got = append(got, b.ServiceName+"/"+hexs(b.Provider))
+			}
+			cmp("bindings-of-service:query", big, got, want)
+		}
+		// (the extra bindings are removed again so that the scans below see the universe only)
+		for i := 0; i < 130; i++ {
+			p := sdk.AccAddress(sha256Sum(fmt.Sprint("c18-many-", i))[:20])
+			ctx.KVStore(a.app.GetKey(types.StoreKey)).Delete(types.GetServiceBindingKey(big, p))
+		}
+	}
 	for _, n := range names {
 		_, vals := collect(k.ServiceBindingsIterator(ctx, n))
 		var got, want []string
